@@ -2,6 +2,8 @@
 
 abstract design (Hypothesis-drawn JSON) -> Verilog text + expected view;  netlist -> observed view.
 Shares no code with spydrnet.composers / spydrnet.parsers."""
+import re
+
 from hypothesis import strategies as st
 
 from vf.gen_edif import Chooser
@@ -510,6 +512,12 @@ def text_of(d):
         text += "// trailing comment" + ("\n" if ch.flag() else "")
         info["trailing_comment"] = 1
     del d["_pos"]
+    if "\\" in text and ch.flag(1, 2):
+        # an escaped identifier ends at any white space, not only at a blank
+        def term(m):
+            return m.group(1) + [" ", "\t", "\n", "\t "][ch.n(4)]
+        text = re.sub(r"(\\\S+) ", term, text)
+        info["escaped_terminator_varied"] = 1
     return text, expected, info
 
 
